@@ -1,6 +1,7 @@
 import json
 import pure
 import prio
+import cross
 
 CHECKS = {
     "C01": prio.check_C01,
@@ -11,6 +12,8 @@ CHECKS = {
     "C15": prio.check_C15,
     "C16": prio.check_C16,
     "C17": prio.check_C17,
+    "C19": cross.check_C19,
+    "C20": cross.check_C20,
     "C13": pure.check_C13,
     "C14": pure.check_C14,
     "C18": pure.check_C18,
